@@ -14,6 +14,7 @@ import (
 	"os"
 	"path/filepath"
 	"runtime"
+	"sort"
 	"strconv"
 	"strings"
 	"sync"
@@ -147,11 +148,222 @@ func c08Family(name string, rng *rand.Rand) c08Fam {
 		// 4076 = 4096 (first value-log block) - 20 (record header): values that fill blocks exactly, nearly, and overflow them
 		f.valLens = []int{1, 2, 2, 3, 4075, 4076, 4077, 1000, 3000, 4056, 8172, 8171, 20000, 70000}
 		f.ops = 40
+	case "batched":
+		// 100..600 keys for the batched snapshot iterators, see c08BatchedKeys
+		f.pool = c08BatchedKeys(rng)
+		f.heavy = true
 	default:
 		panic("unknown family " + name)
 	}
 	f.pool = c08Dedup(f.pool)
 	return f
+}
+
+// c08BatchedKeys builds a sorted list of 100..600 keys of mixed lengths made of dense prefix chains
+// (k, k+00, k+00 00, k+"0", k+"1", k+"a", k+ff, k+long tail), k being short (1..3 bytes) or long (>= 24 bytes of
+// high bytes).  BatchedSnapshotIter reads 32, 64, 128, 256, ... items per batch and resumes behind the last key of
+// a batch; the list is laid out so that, in a scan of the whole list, the batch ends (items 32, 96, 224, 480) fall
+// on chain heads: the first on a long one, later ones mostly on short ones that are followed by their extensions.
+func c08BatchedKeys(rng *rand.Rand) [][]byte {
+	target := 100 + rng.Intn(501)
+	nextEnd := func(count int) int {
+		for _, e := range []int{31, 95, 223, 479} {
+			if e >= count {
+				return e
+			}
+		}
+		return -1
+	}
+	hiFill := []byte{'z', 0xF0, 0xFE, 'q'}
+	var out [][]byte
+	var prev []byte // stem of the previous group
+	for g := 0; len(out) < target && g < 220; g++ {
+		first := byte(0x18 + g)
+		e := nextEnd(len(out))
+		onEnd := false
+		if e >= 0 && e-len(out) < 10 {
+			// pad the previous group with long keys until the head of this group is item e
+			if prev == nil {
+				prev = []byte{0x10}
+				out = append(out, prev)
+			}
+			for i := 0; len(out) < e; i++ {
+				out = append(out, c08Cat(prev, []byte{0x7F, byte(i >> 8), byte(i)}, bytes.Repeat([]byte{hiFill[rng.Intn(4)]}, rng.Intn(30))))
+			}
+			onEnd = true
+		}
+		long := rng.Intn(4) == 0
+		if onEnd {
+			long = e == 31 || rng.Intn(5) == 0
+		}
+		var stem []byte
+		if long {
+			stem = c08Cat([]byte{first}, bytes.Repeat([]byte{hiFill[rng.Intn(4)]}, 23+rng.Intn(18)))
+		} else {
+			stem = []byte{first}
+			for i := rng.Intn(3); i > 0; i-- {
+				stem = append(stem, []byte{0x00, '5', 'k', 0xFF}[rng.Intn(4)])
+			}
+		}
+		group := [][]byte{stem}
+		for _, ext := range [][]byte{{0x00}, {0x00, 0x00}, {'0'}, {'1'}, {'a'}, {0xFF}, bytes.Repeat([]byte{'y'}, 24+rng.Intn(8)), {0x00, 0xFF}, {'a', 0x00}} {
+			if onEnd || rng.Intn(3) > 0 {
+				group = append(group, c08Cat(stem, ext))
+			}
+		}
+		out = append(out, group...)
+		prev = stem
+	}
+	sort.Slice(out, func(i, j int) bool { return bytes.Compare(out[i], out[j]) < 0 })
+	return out
+}
+
+// c08RunBatched is the body of a "batched" sequence: fill the buffer with the key list (directly, or with
+// staged-and-cleaned-up and checkpointed-and-reverted noise around it), open a stage, and read the snapshot
+// through BatchedSnapshotIter / ForEachInSnapshotRange / SnapshotIter in both directions, unbounded and bounded,
+// alone and with later writes in between that the snapshot must not show; then change the snapshot (release or
+// cleanup, checkpoint/revert) and read again.
+func c08RunBatched(x *c08Run, rng *rand.Rand) {
+	keys := x.pool
+	mode := rng.Intn(3)
+	val := func() []byte { return c08MakeVal(1+rng.Intn(3), byte(rng.Intn(4))) }
+	write := func(k []byte) c08Op {
+		switch w := rng.Intn(20); {
+		case w < 2:
+			return c08Op{K: "del", Key: k}
+		case w < 4:
+			return c08Op{K: "setf", Key: k, Val: val(), F: x.pickFlagOps()}
+		default:
+			return c08Op{K: "set", Key: k, Val: val()}
+		}
+	}
+	noise := func(n int) {
+		for i := 0; i < n && !x.stop; i++ {
+			k := keys[rng.Intn(len(keys))]
+			switch rng.Intn(3) {
+			case 0:
+				x.step(write(k), false)
+			case 1:
+				x.step(write(c08Cat(k, []byte{'0', byte('a' + rng.Intn(3))})), false) // a key the list does not hold
+			default:
+				x.step(c08Op{K: "upd", Key: k, F: x.pickFlagOps()}, false)
+			}
+		}
+	}
+	bound := func(upper bool) []byte {
+		switch w := rng.Intn(10); {
+		case w < 4:
+			return nil
+		case w < 8:
+			k := c08Clone(keys[rng.Intn(len(keys))])
+			if upper && len(k) == 0 {
+				return nil
+			}
+			return k
+		default:
+			return append(c08Clone(keys[rng.Intn(len(keys))]), 0x00)
+		}
+	}
+	scans := func(n int) {
+		for i := 0; i < n && !x.stop; i++ {
+			lo, hi := bound(false), bound(true)
+			if i < 2 {
+				lo, hi = nil, nil
+			} else if rng.Intn(3) > 0 {
+				hi = nil // long ranges: several batches
+			}
+			switch w := rng.Intn(7); {
+			case i == 0:
+				x.step(c08Op{K: "batched", Lo: lo, Hi: hi, N: -1}, false)
+			case i == 1:
+				x.step(c08Op{K: "batchedrev", Lo: lo, Hi: hi, N: -1}, false)
+			case w < 2:
+				x.step(c08Op{K: "batched", Lo: lo, Hi: hi, N: rng.Intn(200) - 1}, false)
+			case w < 3:
+				x.step(c08Op{K: "batchedrev", Lo: lo, Hi: hi, N: rng.Intn(200) - 1}, false)
+			case w < 6:
+				k := "bsiw"
+				if w == 5 {
+					k = "bsiwrev"
+				}
+				inner := make([]c08Op, 3+rng.Intn(8))
+				for j := range inner {
+					kk := keys[rng.Intn(len(keys))]
+					if rng.Intn(2) == 0 {
+						kk = c08Cat(kk, []byte{'1', byte('a' + rng.Intn(3))})
+					}
+					inner[j] = write(kk)
+				}
+				x.step(c08Op{K: k, Lo: lo, Hi: hi, N: 5 + rng.Intn(40), Inner: inner}, false)
+			default:
+				if rng.Intn(2) == 0 {
+					x.step(c08Op{K: "snapiter", Lo: lo, Hi: hi}, false)
+				} else {
+					x.step(c08Op{K: "snapiterrev", Lo: lo, Hi: hi}, false)
+				}
+			}
+		}
+	}
+	// ---- fill
+	order := rng.Perm(len(keys))
+	if mode == 1 {
+		x.step(c08Op{K: "staging"}, false)
+		noise(10 + rng.Intn(20))
+		x.step(c08Op{K: "cleanup"}, false)
+	}
+	for i, j := range order {
+		if x.stop {
+			return
+		}
+		if mode == 2 && rng.Intn(7) == 0 {
+			continue // a subset only
+		}
+		if mode == 1 && i == len(order)/2 {
+			// noise that a revert takes back again, in the middle of the fill
+			x.step(c08Op{K: "checkpoint"}, false)
+			noise(10 + rng.Intn(20))
+			if rv := x.revertible(); len(rv) > 0 {
+				x.step(c08Op{K: "revert", N: rv[len(rv)-1]}, false)
+			}
+		}
+		x.step(write(keys[j]), false)
+	}
+	x.audit(true)
+	// ---- read the snapshot of stage[0]
+	x.step(c08Op{K: "staging"}, false)
+	scans(5 + rng.Intn(4))
+	if !x.stop && rng.Intn(2) == 0 {
+		// a nested stage with writes, cleaned up or released: the snapshot stays what it was
+		x.step(c08Op{K: "staging"}, false)
+		noise(10)
+		scans(2)
+		if rng.Intn(2) == 0 {
+			x.step(c08Op{K: "cleanup"}, false)
+		} else {
+			x.step(c08Op{K: "release"}, false)
+		}
+		scans(2)
+	}
+	// ---- change what the snapshot is and read again
+	if x.stop {
+		return
+	}
+	noise(15)
+	if rng.Intn(2) == 0 {
+		x.step(c08Op{K: "cleanup"}, false)
+	} else {
+		x.step(c08Op{K: "release"}, false)
+	}
+	if !x.stop && rng.Intn(2) == 0 {
+		x.step(c08Op{K: "checkpoint"}, false)
+		noise(15)
+		if rv := x.revertible(); len(rv) > 0 {
+			x.step(c08Op{K: "revert", N: rv[len(rv)-1]}, false)
+		}
+	}
+	x.step(c08Op{K: "staging"}, false)
+	scans(4 + rng.Intn(3))
+	x.audit(true)
 }
 
 // ---------------------------------------------------------------- random sequences
@@ -161,7 +373,7 @@ func c08RunSequence(r *vrep.Report, fam string, seq int) *c08Run {
 	f := c08Family(fam, rng)
 	x := c08NewRun(r, fam, seq, rng)
 	x.pool, x.valLens, x.heavy = f.pool, f.valLens, f.heavy
-	if fam == "limits" || rng.Intn(25) == 0 {
+	if fam == "limits" || (fam != "batched" && rng.Intn(25) == 0) {
 		x.step(c08Op{K: "limits", E: uint64(2 + rng.Intn(5)), B: uint64(8 + rng.Intn(30))}, false)
 	}
 	if fam == "fanout" {
@@ -182,6 +394,10 @@ func c08RunSequence(r *vrep.Report, fam string, seq int) *c08Run {
 		if target >= 256 {
 			r.Count("fanout_256_or_more_siblings", 1)
 		}
+	}
+	if fam == "batched" {
+		c08RunBatched(x, rng)
+		f.ops = 0
 	}
 	for i := 0; i < f.ops && !x.stop; i++ {
 		// whole-state audit after every undo / stage change, after every third other operation and at the
@@ -289,7 +505,7 @@ func c08Parallel(jobs []c08Job) {
 }
 
 func TestVerifC08Random(t *testing.T) {
-	r := vrep.New("C08", "c08-random"+c08Tag(), "seeded random operation sequences (writes with flags, deletes, nested staging/release/cleanup, checkpoint/revert, bounded scans in both directions, snapshot reads, stage inspection, value history, key handles, iterator use after a write, size limits) executed in lock-step on the ART buffer, the RBT buffer and the reference model, every result and a whole-state audit compared after every operation; key families: tiny (all strings over {a,b} up to length 3 incl. the empty key), edgebytes (00/FF strings), longprefix (shared prefixes of 18..45 bytes, divergence around byte 20), random, limits (tiny + small entry/buffer limits), fanout (up to 257 siblings under one node, audits sampled), bigvals (values of 1..70000 bytes crossing value-log blocks); distinct = distinct audited model states (content, flags, stage marks, checkpoints, dirty)")
+	r := vrep.New("C08", "c08-random"+c08Tag(), "seeded random operation sequences (writes with flags, deletes, nested staging/release/cleanup, checkpoint/revert, bounded scans in both directions, snapshot reads, stage inspection, value history, key handles, iterator use after a write, size limits) executed in lock-step on the ART buffer, the RBT buffer and the reference model, every result and a whole-state audit compared after every operation; key families: tiny (all strings over {a,b} up to length 3 incl. the empty key), edgebytes (00/FF strings), longprefix (shared prefixes of 18..45 bytes, divergence around byte 20), random, limits (tiny + small entry/buffer limits), fanout (up to 257 siblings under one node, audits sampled), bigvals (values of 1..70000 bytes crossing value-log blocks), batched (100..600 keys of mixed lengths in dense prefix chains laid out so that the 32/96/224/480-item batch ends of BatchedSnapshotIter fall on chain heads; the snapshot is read through BatchedSnapshotIter / ForEachInSnapshotRange / SnapshotIter forward and reverse, bounded and unbounded, with later writes in between, after cleanup / revert / release); distinct = distinct audited model states (content, flags, stage marks, checkpoints, dirty)")
 	defer r.Finish(t)
 	plan := []struct {
 		fam string
@@ -297,6 +513,7 @@ func TestVerifC08Random(t *testing.T) {
 	}{
 		{"tiny", vrep.Pick(650, 18000)}, {"longprefix", vrep.Pick(650, 18000)}, {"edgebytes", vrep.Pick(500, 12000)},
 		{"random", vrep.Pick(500, 12000)}, {"limits", vrep.Pick(350, 8000)}, {"fanout", vrep.Pick(150, 2500)}, {"bigvals", vrep.Pick(200, 4500)},
+		{"batched", vrep.Pick(100, 2500)},
 	}
 	var jobs []c08Job
 	var mu sync.Mutex
@@ -340,6 +557,9 @@ func TestVerifC08Random(t *testing.T) {
 	r.Floor("iter_after_write_panicked_art", 100)
 	r.Floor("bounded_scans_nonempty", 1000)
 	r.Floor("batched_iter_refills", 1)
+	r.Floor("batched_scans_3plus_batches", 200)
+	r.Floor("batched_interleaved_3plus_batches", 30)
+	r.Floor("batched_scans_short_resume_key_after_longer", 50)
 	r.Floor("entry_limit_hit", 20)
 	r.Floor("buffer_limit_hit", 20)
 	r.Floor("sequences_crossing_value_log_block", 50)
